@@ -15,6 +15,8 @@ Scripts == [
   stale_block_clean |-> << M(0, <<1>>), M(0, <<1>>), <<"istart">>, <<"isync">>, <<"flush">>, <<"istop">>, M(2, <<>>), <<"istart">>, <<"isync">> >>,
   \* reorg between conflicting spends while synced, back and forth, with a child transaction and a flush in between
   synced_reorgs |-> << <<"istart">>, <<"isync">>, M(0, <<1, 3>>), M(0, <<2>>), <<"invalidate", 1>>, <<"flush">>, <<"reconsider", 1>>, M(1, <<4>>), <<"invalidate", 3>>, <<"flush">>, <<"istop">>, <<"istart">>, M(1, <<>>) >>,
+  \* the same transaction in two competing blocks, both indexed, the chain returns to the one that was indexed first
+  same_tx_back_and_forth |-> << M(0, <<1>>), M(0, <<1>>), <<"istart">>, <<"isync">>, <<"invalidate", 1>>, <<"reconsider", 1>>, <<"flush">>, M(1, <<3>>) >>,
   \* index behind the tip during a reorg: started before the fork wins, synced afterwards
   behind_during_reorg |-> << M(0, <<1>>), <<"flush">>, <<"istart">>, <<"isync">>, <<"istop">>, M(0, <<2>>), M(2, <<>>), <<"istart">>, <<"isync">>, <<"invalidate", 2>>, M(1, <<3>>), <<"flush">> >>
 ]
